@@ -67,12 +67,12 @@ def generate(ck):
                 d["schedule"]["kind"] = "random-walk"  # frac-face pressure that also rises: rows whose minimum is not at the fracture
             if d["grid"]["family"] == "geometric":
                 d["grid"]["nt"] = max(3, d["grid"]["nt"])
-            d.update({"kind": "profiles", "every": int(rng.integers(1, d["grid"]["nt"] + 4)), "rescale": bool(rng.random() < 0.5)})
+            d.update({"kind": "profiles", "every": int(rng.integers(1, d["grid"]["nt"] + 4)), "rescale": bool(rng.random() < 0.5), "decoy": bool(i % 16 < 8)})
             descs.append(d)
         elif k in (3, 4):
             d = sim.random_sim_desc(rng, ck.tier, nx_choices=(3, 10, 30), families=("uniform", "quadratic", "sorted-random"), schedules=False)
             d["grid"]["nt"] = int(rng.choice([3, 7, 40, 150]))
-            d.update({"kind": "recovery", "which": str(rng.choice(["factor", "rate"])), "ticks": bool(rng.random() < 0.5)})
+            d.update({"kind": "recovery", "which": str(rng.choice(["factor", "rate"])), "ticks": bool(rng.random() < 0.5), "decoy": bool(i % 16 >= 8)})
             descs.append(d)
         elif k == 5:
             descs.append({"kind": "comparison", "rows": int(rng.integers(30, 90)), "tau": float(rng.uniform(40, 300)), "M": float(10.0 ** rng.uniform(2, 5)), "p_i": float(rng.uniform(5000, 9000)), "filter": bool(rng.random() < 0.5), "window": [None, 1, 5][int(rng.integers(0, 3))], "seed": int(rng.integers(0, 2**31)), "n_zero": int(rng.integers(0, 4))})
@@ -97,6 +97,14 @@ def run_case(ck, desc):
             sim.simulate(res, time, sched)
             pp = np.array(res.pseudopressure, copy=True)
             nt, nx = pp.shape
+            if desc.get("decoy"):
+                # another reservoir of the same class and shape is simulated before anything is
+                # plotted: the figure still carries THIS object's run
+                res_b, _, _, _, _ = sim.build(dict(desc, reused=False, schedule=None, p_f=0.5 * (desc["p_f"] + desc["p_i"])))
+                with np.errstate(all="ignore"):
+                    res_b.simulate(0.37 * np.asarray(time, dtype=float))
+                    res_b.recovery_factor()
+                ck.count("plots_after_another_objects_simulate")
             if kind == "profiles":
                 with warnings.catch_warnings(), np.errstate(all="ignore"):
                     warnings.simplefilter("ignore")
